@@ -545,9 +545,11 @@ static void run_generated(std::uint64_t seed, long nprog, bool rebased) {
 		// operations reach the 4-D middle exchange too rarely.
 		bool const perm = rng.coin(12);
 		int D = perm ? 3 + (rng.coin(70) ? 1 : 0) : 1 + rng.pick({20, 35, 30, 15});
-		std::vector<Ex> ex; long ne = 1;
+		std::vector<Ex> ex; long ne = 1; bool big = false;
 		for(int k = 0; k < D; ++k) {
 			long sz = perm ? rng.range(2, 3) : (long[]){0, 1, 2, 3, 4, 5, 6}[rng.pick({12, 16, 22, 20, 16, 8, 6})];
+			// now and then one dimension beyond the usual small sizes (around 16 and 32: where an implementation would switch strategy)
+			if(!perm && !big && rng.coin(4)) { sz = (long[]){15, 16, 17, 31, 32, 33}[rng.range(0, 5)]; big = true; }
 			if(ne * sz > 240) sz = 2;
 			ne *= sz;
 			long f = rebased ? rng.range(-3, 3) : 0;
